@@ -18,6 +18,10 @@
 (*   pkg      package-level tables: post.macRoman (handed out by           *)
 (*            post.Read as Outlines.Names), gtab.GsubDefaultFeatures,      *)
 (*            gtab.GposDefaultFeatures                                     *)
+(*   closure  what the function values stored in the font have captured   *)
+(*            (Outlines.FDSelect as installed by cff.readFDSelect: range   *)
+(*            tables).  Reflection cannot measure it (Unmeasurable): it is *)
+(*            bound by the race detector and by result comparison only.    *)
 (* Per-call locations (the design claim of the anchors: "all output paths  *)
 (* allocate their tables, buffers and string tables per call"):            *)
 (*   tab   the table map of one Write incl. the head bytes that            *)
@@ -26,6 +30,9 @@
 (*         reverse index (cff/strings.go:55-73, cff/write.go:36)           *)
 (*   ctx   the buffers of one Layouter / gtab.Context (layout.go:28-34,    *)
 (*         gtab/layout.go:27-43)                                           *)
+(*   idx   lookup tables a call builds for itself from package constants   *)
+(*         (post.Info.Encode: name -> index of the 258 Mac glyph names;    *)
+(*         must not live in a package variable)                            *)
 (*   res   the value under construction that the call returns              *)
 (*                                                                         *)
 (* Access kinds:  R  read, the value read becomes part of the result       *)
@@ -37,8 +44,10 @@
 (***************************************************************************)
 EXTENDS Integers, Sequences, FiniteSets
 
-SharedNames == {"scalars", "outl", "cmap", "gdef", "gsub", "gpos", "pkg"}
-LocalNames  == {"tab", "str", "ctx", "res"}
+SharedNames  == {"scalars", "outl", "cmap", "gdef", "gsub", "gpos", "pkg", "closure"}
+Unmeasurable == {"closure"}                      \* not reachable by reflection
+Measured     == SharedNames \ Unmeasurable        \* fingerprinted by binding V1
+LocalNames   == {"tab", "str", "ctx", "res", "idx"}
 
 R(n)     == [k |-> "R",  n |-> n, v |-> "-"]
 T(n)     == [k |-> "T",  n |-> n, v |-> "-"]
@@ -50,6 +59,10 @@ HeadPatch == << W("tab", "tok"), W("tab", "zero"), R("tab"), W("tab", "patched")
     \* makeHead; clearChecksum; checksum over all tables; patchChecksum; w.Write(body)
 Strings   == << T("str"), Wc("str", "built"), R("str") >>
     \* cffStrings.lookup: if rev == nil { build }; use rev
+Index     == << T("idx"), Wc("idx", "built"), R("idx") >>
+    \* post.Info.Encode: build the name index (from pkg), use it
+FDSel     == << R("closure") >>
+    \* Outlines.FDSelect(gid): a pure function of the captured range table
 Result    == << W("res", "tok"), R("res") >>
 
 OpNames == {"Write", "WriteTrueTypePDF", "WriteOpenTypeCFFPDF", "AsCFFWrite", "Subset", "Clone",
@@ -61,24 +74,24 @@ OpNames == {"Write", "WriteTrueTypePDF", "WriteOpenTypeCFFPDF", "AsCFFWrite", "S
 BaseFootprint(op) ==
   CASE op = "Write" ->
          << R("scalars"), R("outl"), R("cmap"), R("gdef"), R("gsub"), R("gpos"), R("pkg") >>
-         \o Strings \o HeadPatch
+         \o Index \o FDSel \o Strings \o HeadPatch
     [] op = "WriteTrueTypePDF" ->
          << R("scalars"), R("outl"), R("cmap") >> \o HeadPatch
     [] op = "WriteOpenTypeCFFPDF" ->
-         << R("scalars"), R("outl"), R("cmap") >> \o Strings \o << W("tab", "tok"), R("tab") >>
+         << R("scalars"), R("outl"), R("cmap") >> \o FDSel \o Strings \o << W("tab", "tok"), R("tab") >>
     [] op = "AsCFFWrite" ->
-         << R("scalars"), R("outl") >> \o Strings \o Result
+         << R("scalars"), R("outl") >> \o FDSel \o Strings \o Result
     [] op = "Subset" ->
-         << R("scalars"), R("outl"), R("cmap"), R("gdef"), R("gsub"), R("gpos") >> \o Result
+         << R("scalars"), R("outl"), R("cmap"), R("gdef"), R("gsub"), R("gpos") >> \o FDSel \o Result
     [] op = "Clone"          -> << R("scalars") >> \o Result
     [] op = "FontBBox"       -> << R("scalars"), R("outl") >>
     [] op = "Widths"         -> << R("outl") >> \o Result
     [] op = "WidthsPDF"      -> << R("scalars"), R("outl") >> \o Result
     [] op = "WidthsMapPDF"   -> << R("scalars"), R("outl") >> \o Result
-    [] op = "GlyphWidths"    -> << R("scalars"), R("outl") >>
+    [] op = "GlyphWidths"    -> << R("scalars"), R("outl") >> \o FDSel
     [] op = "GlyphBBoxes"    -> << R("outl") >> \o Result
     [] op = "GlyphBBox"      -> << R("outl") >>
-    [] op = "GlyphBBoxPDF"   -> << R("scalars"), R("outl") >>
+    [] op = "GlyphBBoxPDF"   -> << R("scalars"), R("outl") >> \o FDSel
     [] op = "MakeGlyphNames" -> << R("outl"), R("cmap"), R("gsub"), R("pkg") >> \o Result
     [] op = "GetFontInfo"    -> << R("scalars"), R("outl") >> \o Result
     [] op = "Names"          -> << R("scalars"), R("outl"), R("pkg") >>
@@ -97,13 +110,22 @@ BaseFootprint(op) ==
 (* per-call location into the shared font or adds a write to a shared      *)
 (* location.                                                               *)
 (***************************************************************************)
-Variants == {"ok", "headpatch", "lazyrev", "scratch", "sortinplace", "pkgwrite"}
+Range(s) == { s[j] : j \in 1..Len(s) }
+\* replace the pure closure call by: remember my range (a value specific to the call), then answer from it
+RECURSIVE SubstFDSel(_)
+SubstFDSel(fp) == IF fp = << >> THEN << >>
+                  ELSE (IF Head(fp) = FDSel[1] THEN << W("closure", "tok"), R("closure") >> ELSE << Head(fp) >>)
+                       \o SubstFDSel(Tail(fp))
+
+Variants == {"ok", "headpatch", "lazyrev", "scratch", "sortinplace", "pkgwrite",
+             "pkglazy", "closurecache", "inplacerestore"}
 
 \* names that are shared under a variant
 Leaked(variant) ==
   CASE variant = "headpatch" -> {"tab"}     \* head bytes kept in a buffer on the font and patched there
     [] variant = "lazyrev"   -> {"str"}     \* one cffStrings instance stored with the outlines
     [] variant = "scratch"   -> {"ctx"}     \* layouters sharing one scratch buffer
+    [] variant = "pkglazy"   -> {"idx"}     \* the name index hoisted into a package variable, built on first use
     [] OTHER                 -> {}
 
 Footprint(op, variant) ==
@@ -113,6 +135,13 @@ Footprint(op, variant) ==
     [] variant = "pkgwrite" /\ op = "MakeGlyphNames" ->
          \* completes the names in the slice it got from the font (= post.macRoman)
          BaseFootprint(op) \o << W("pkg", "tok") >>
+    [] variant = "inplacerestore" /\ op \in {"ExplainGsub", "ExplainGpos"} ->
+         \* reverses a backtrack sequence of the shared lookup list in place, prints it, reverses it back
+         LET n == IF op = "ExplainGsub" THEN "gsub" ELSE "gpos" IN
+         << R("outl"), R("cmap"), W(n, "perm"), R(n), W(n, "v0") >> \o Result
+    [] variant = "closurecache" /\ FDSel[1] \in Range(BaseFootprint(op)) ->
+         \* the FDSelect closure remembers the range of the previous call in a captured variable
+         SubstFDSel(BaseFootprint(op))
     [] OTHER -> BaseFootprint(op)
 
 IsShared(name, variant) == name \in SharedNames \cup Leaked(variant)
